@@ -105,6 +105,9 @@ type Fn struct {
 	// Reenter > 0: while this function executes it calls Invoke (from the scope it was registered in)
 	// with function Fns[Reenter-1]: re-entrant use of the container from inside user code.
 	Reenter int `json:"reenter,omitempty"`
+	// ReenterProvide: with Reenter > 0, the nested call is Provide(Fns[Reenter-1]) to the scope this function
+	// was registered in (registration from inside user code) instead of Invoke.
+	ReenterProvide bool `json:"reprov,omitempty"`
 }
 
 func (f *Fn) faultAt(exec int) string {
@@ -139,7 +142,11 @@ func (f *Fn) Sig() string {
 		s += fmt.Sprintf(" faults=%v", f.Faults)
 	}
 	if f.Reenter > 0 {
-		s += fmt.Sprintf(" reenters:Invoke(f%d)", f.Reenter-1)
+		if f.ReenterProvide {
+			s += fmt.Sprintf(" reenters:Provide(f%d)", f.Reenter-1)
+		} else {
+			s += fmt.Sprintf(" reenters:Invoke(f%d)", f.Reenter-1)
+		}
 	}
 	return s
 }
